@@ -38,6 +38,36 @@ def gen_cases(chk, quick):
         whens = [rng.choice(['by_dependencies', 'by_dependencies', 'always', 'never']) for _ in range(n)]
         behav = [{'sleep_ms': rng.choice([0, 40, 100]), 'rc': 1 if rng.random() < 0.15 else 0} for _ in range(n)]
         cases.append(sc.mk_case(sc.mk_spec(n, edges, kinds, whens), rng.randint(1, max(1, n - 1)), behav, label='random'))
+    cases += gen_unspawnable(chk, quick)
+    return cases
+
+
+def gen_unspawnable(chk, quick):
+    """outcome class "the command cannot be spawned" (popen/exec error after the slot was reserved): the slot must come
+    back exactly once.  One or two unspawnable steps compete with a gate step for the pool; several steps wait behind
+    the gate, so a surplus slot shows as two of them running together.  Which waiting step gets a freed slot depends on
+    the 10 ms polling phase, hence a few repetitions."""
+    rng = chk.rng
+    cases = []
+    for rep in range(2 if quick else 5):
+        for pool, nbad in ((1, 1), (2, 1), (2, 2)):
+            nw = 6
+            gate, bads = 0, list(range(1, 1 + nbad))
+            ws = list(range(1 + nbad, 1 + nbad + nw))
+            n = 1 + nbad + nw
+            edges = [(w, gate, 'step') for w in ws]
+            behav = [{'sleep_ms': 100}] + [{} for _ in bads] + [{'sleep_ms': rng.choice([70, 90])} for _ in ws]
+            cases.append(sc.mk_case(sc.mk_spec(n, edges, unspawnable=bads), pool, behav, label=f'unspawnable-gate#{rep}'))
+        # too few steps for the journal to show a surplus slot: only the trace tie (S lines vs the model's `die`) sees a
+        # slot that is given back twice
+        cases.append(sc.mk_case(sc.mk_spec(2, [], unspawnable=[1]), 1, [{'sleep_ms': 50}, {}], label=f'unspawnable-small#{rep}'))
+        # the unspawnable step as a dependency: its by_dependencies dependent must not run, its always dependent runs;
+        # four more steps wait behind the gate
+        n = 8
+        edges = [(2, 1, 'step'), (3, 1, 'step')] + [(w, 0, 'step') for w in (4, 5, 6, 7)]
+        whens = ['by_dependencies'] * 3 + ['always'] + ['by_dependencies'] * 4
+        behav = [{'sleep_ms': 100}, {}, {'sleep_ms': 60}, {'sleep_ms': 60}] + [{'sleep_ms': 80} for _ in range(4)]
+        cases.append(sc.mk_case(sc.mk_spec(n, edges, whens=whens, unspawnable=[1]), 1, behav, label=f'unspawnable-dep#{rep}'))
     return cases
 
 
@@ -47,7 +77,7 @@ def run(chk):
     cases = gen_cases(chk, quick)
     chk.extra['rule'] = ('k independent sleeping steps for k=2..%d with pools 1..k+1; root + w parallel steps + sink (w=3..%d) with every pool 1..w, '
                          'edges realised as explicit step dependencies or output-file/dependency-file or output-file/glob pairs, a few failing steps; '
-                         'random DAGs on 3..%d steps with random pools and when-options. Every case is run once on the hook-free binary (journal oracle) '
+                         'random DAGs on 3..%d steps with random pools and when-options; steps whose command cannot be SPAWNED (NUL byte in an exported line_items variable, exec EINVAL after the slot was reserved): one or two of them competing with a gate step, six steps waiting behind the gate, pools 1 and 2, and as a dependency of a by_dependencies and of an always step (repeated). Every case is run once on the hook-free binary (journal oracle) '
                          'and 3 (quick) / 6 (thorough) times on the hook build with different seeded schedule perturbations (journal oracle + trace validated against the model). '
                          'Non-trivial: >= 2 steps, an edge or pool < number of steps, at least one command executed.') % ((6, 4, 6) if quick else (8, 6, 8))
     sc.run_family(ctx, 'pool/plain', cases, OWN, hook=False)
